@@ -356,6 +356,9 @@ def run(ctx, rep):
     wv = CF.WriterView(fx, rep, "C01.O1")
     if wv.ok:
         CF.check_order(fx, rep, "C01.O1", wv)
+    import api_rules as AR
+    AR.check_frame_api(fx, rep, "C01.api")
+    AR.check_mapper_constructors(fx, rep, "C01.api")
     run_controls(ctx, rep)
 
 
